@@ -119,8 +119,9 @@ Spec.sum = spec_sum
 def find_loop_spec(I, frame, ordinal):
     fi = frame.fi
     con = I.E.contracts.get(fi.key) if fi is not None else None
-    if con is None and I.ctx.top_contract is not None and fi is not None and fi.key == I.ctx.top_contract.key:
-        con = I.ctx.top_contract
+    top = I.ctx.top_contract
+    if top is not None and fi is not None and fi.key == (top.body_key or top.key) and I.ctx.depth <= 1:
+        con = top
     if con is None or ordinal not in con.loops:
         return None
     return con.loops[ordinal]
@@ -217,6 +218,47 @@ def havoc_loop(I, loop, frame, names, entry_heap, seq):
     ctx.events = None
 
 
+def check_loop_frame(I, loop, frame, entry_heap, seq, n_own, name):
+    """what one iteration writes itself (directly or through callee frames) lies inside the loop's `modifies` clause -
+    otherwise facts kept across the havoc at the loop head could be stale"""
+    ctx = I.ctx
+    allowed = {}
+    if loop.modifies is not None:
+        spec = Spec(ctx, entry_heap, entry_heap)
+        if seq is not None:
+            spec.seq = spec.view(seq, entry_heap)
+        L = Locals(spec, frame, entry_heap)
+        for w in loop.modifies(spec, L):
+            if w[0] == "all":
+                allowed.setdefault(w[1], []).append(w[2])
+            elif w[0] == "trace":
+                continue
+            else:
+                objv, fname = w
+                allowed.setdefault(fname, []).append(lambda x, idt=objv.id: x == idt)
+    x = z3.Int("lfx")
+    seen = set()
+    for fname, kind, what in ctx.own_stores[n_own:]:
+        if fname in ("__context__", "__cause__", "__suppress_context__") or fname.startswith("$ghost") or fname.startswith("rec:") or fname.startswith("$arg") or fname == "$nargs":
+            continue
+        preds = allowed.get(fname, [])
+        if kind == "id":
+            key = (fname, what.sexpr())
+            if key in seen:
+                continue
+            seen.add(key)
+            inW = z3.Or(*[p(what) for p in preds]) if preds else z3.BoolVal(False)
+            ctx.oblige("%s/modifies[%s]" % (name, fname), z3.Or(what >= ctx.alloc0, inW), kind="frame")
+        else:
+            inW = z3.Or(*[p(x) for p in preds]) if preds else z3.BoolVal(False)
+            goal = z3.ForAll([x], z3.Implies(z3.And(x < ctx.alloc0, what(x)), inW))
+            key = (fname, goal.sexpr())
+            if key in seen:
+                continue
+            seen.add(key)
+            ctx.oblige("%s/modifies[%s]" % (name, fname), goal, kind="frame")
+
+
 def loop_name(frame, ordinal):
     from .calls import short
 
@@ -256,6 +298,10 @@ def symbolic_for(I, frame, s, it, ordinal):
             val = map_get(I, map_iter.m, elem)
             elem = val if map_iter.mode == "values" else VTuple([elem, val])
         I.assign(frame, s.target, elem)
+        iter_heap = ctx.snapshot()
+        iter_tr = ctx.trlen
+        iter_locals = dict(frame.locals)
+        n_own = len(ctx.own_stores)
         try:
             I.exec_block(frame, s.body)
         except ContinueSig:
@@ -264,6 +310,17 @@ def symbolic_for(I, frame, s, it, ordinal):
             return
         for lab, f in eval_inv(I, loop, entry_heap, frame, i + 1, it, tr_entry, "prove").items():
             ctx.oblige("%s/preserve[%s]" % (name, lab), f, kind="loop")
+        check_loop_frame(I, loop, frame, entry_heap, it, n_own, name)
+        if loop.step is not None:
+            spec = Spec(ctx, iter_heap, ctx.snapshot())
+            spec.mode = "prove"
+            spec.tr, spec.trlen, spec.tr_old_len = ctx.tr, ctx.trlen, iter_tr
+            spec.seq = spec.view(it, spec.new_heap)
+            spec.index = i
+            fr0 = types.SimpleNamespace(locals=iter_locals)
+            r = loop.step(spec, Locals(spec, frame, spec.new_heap), Locals(spec, fr0, iter_heap))
+            for lab, f in r.items():
+                ctx.oblige("%s/iteration[%s]" % (name, lab), _b(f), kind="loop")
         raise PathEnd()
     ctx.assume(i == n)
     I.exec_block(frame, s.orelse)
@@ -289,6 +346,7 @@ def symbolic_while(I, frame, s, ordinal):
         iter_heap = ctx.snapshot()
         iter_tr = ctx.trlen
         iter_locals = dict(frame.locals)
+        n_own = len(ctx.own_stores)
         dec0 = None
         if loop.decreases is not None:
             spec = Spec(ctx, entry_heap, ctx.snapshot())
@@ -301,6 +359,7 @@ def symbolic_while(I, frame, s, ordinal):
             return
         for lab, f in eval_inv(I, loop, entry_heap, frame, k + 1, None, tr_entry, "prove").items():
             ctx.oblige("%s/preserve[%s]" % (name, lab), f, kind="loop")
+        check_loop_frame(I, loop, frame, entry_heap, None, n_own, name)
         if loop.step is not None:
             spec = Spec(ctx, iter_heap, ctx.snapshot())
             spec.tr, spec.trlen, spec.tr_old_len = ctx.tr, ctx.trlen, iter_tr
